@@ -72,9 +72,13 @@ class TopGen:
                     content = r.choice(pool) if r.random() < 0.5 else gen_content(r)
                     if content.startswith("KT_"): self.used_consts = True       # the text spells a constant's name: still text
                     if r.random() < 0.15 and content: content += "\nsecond line"
+                    cont = None
+                    if r.random() < 0.08:
+                        w2 = r.choice(["#1 shop", "// not a comment", "/* nor this", "#", "*/ x"]); content = "Our%d %s" % (self.n, w2)
+                        cont = '"Our%d\n          %s"' % (self.n, w2)
                     typ = r.choice(TEXT_TYPES)
                     pre_arg = "F(1, 2), " if r.random() < 0.2 else ""       # a comma inside parentheses before the text
-                    body[i] = ("cmd", "%s(%s%s)" % (name, pre_arg, string_lit(r, content, typ)), None)
+                    body[i] = ("cmd", "%s(%s%s)" % (name, pre_arg, (typ + cont) if cont else string_lit(r, content, typ)), None)
                     self.textcmds.append((owner, name, terminated(content, typ), typ))
                 else:
                     steps = [r.choice(["walk_up", "walk_down", "face_left"]) for _ in range(r.randint(0, 3))]
@@ -190,7 +194,7 @@ class TopGen:
                                 csrc, cexp = r.choice([("KT_BASE + %d" % j, "10 + %d" % j), ("KT_BASE", "10"), ("( KT_BASE + 2 ) * %d" % j, "( 10 + 2 ) * %d" % j)])
                                 self.used_consts = True
                             elif r.random() < 0.15:
-                                vsrc, vexp, csrc, cexp = r.choice([("VAR_T", "VAR_T", "%d %% 4" % (j + 5), "%d %% 4" % (j + 5)), ("VAR_T + S % 2", "VAR_T + S % 2", str(j), str(j)), ("VAR_T", "VAR_T", "%d", "% d")])
+                                vsrc, vexp, csrc, cexp = r.choice([("VAR_T", "VAR_T", "MAX(A, %d)" % j, "MAX ( A , %d )" % j), ("VAR_T", "VAR_T", "CLAMP(S, 1, (3))", "CLAMP ( S , 1 , ( 3 ) )"), ("VAR_T", "VAR_T", "%d %% 4" % (j + 5), "%d %% 4" % (j + 5)), ("VAR_T + S % 2", "VAR_T + S % 2", str(j), str(j)), ("VAR_T", "VAR_T", "%d", "% d")])
                             if r.random() < 0.5:
                                 rtgt = "Ext_row%d" % j
                                 inl = [e[2] for e in ents if e[0] == "inline"] + [rw[3] for rw in rows if rw[0] == "inline"]
@@ -871,13 +875,13 @@ def oracle_C16_pair(con, ron, coff, roff):
             lm_ = re.match(r"^([^\s:]+)::?$", nxt)
             if lm_: key = None if re.search(r"_(Text|Movement)_\d+$", lm_.group(1)) else None
         if key in ("VAR_RESULT",): key = None
-        if mm and mm.group(1) in ("compare", "compare_var_to_value", "switch") and re.search(r"\b(random|specialvar|checkitem)\b", sl): key = None
+        if mm and mm.group(1) in ("compare", "compare_var_to_value", "switch") and re.search(r"\b(random|specialvar|checkitem|lastarg|choosemon|avtext)\b", sl): key = None      # an AutoVar operand carries the position of its command
         if key is not None and not re.search(r"(?<![\w])" + re.escape(key) + r"(?![\w])", sl):
             return "marker %d precedes %r, but source line %d is %r" % (n, nxt, n, sl)
     return None
 
 # ---------------- C12 (poryswitch metamorphic) ----------------
-VALS = ["A", "B", "C9", "7"]
+VALS = ["A", "B", "C9", "7", "de"]
 class Pory:
     def __init__(s, rnd): s.r = rnd; s.ncmd = 0
     def pory(s, kind, depth, gen_item, joiner):
@@ -921,6 +925,10 @@ class Pory:
         if x < 0.86 and depth < 2:
             w = "switch (var(VAR_Q)) { case 0: poryswitch(V) { A: m0 B { } _: } case 1: m1 case 2: poryswitch(V) { A { } _: m2 } default: m3 }"
             return (w, lambda sw: "switch (var(VAR_Q)) { case 0: %s case 1: m1 case 2: %s default: m3 }" % ("m0" if sw == "A" else "", "" if sw == "A" else "m2"))
+        if x < 0.87 and depth < 2:
+            lp = r.choice(["while (flag(L)) { a %s }", "switch (var(VAR_Q)) { case 1: %s q1 case 2: q2 }"])
+            w = lp % "poryswitch(V) { A: break 7: x7 de: x8 _: y9 }"
+            return (w, lambda sw, lp=lp: lp % {"A": "break", "7": "x7", "de": "x8"}.get(sw, "y9"))
         if x < 0.88 and depth == 0:
             # `continue` / `break` spliced in by a case: followed by further statements of that case (invalid for A), or last (valid)
             kw = r.choice(["continue", "break"]); lp = r.choice(["while (flag(L)) { a %s }", "do { a %s } while (flag(L))"])
@@ -979,7 +987,7 @@ def gen_C12(rnd, n, tier):
         # constants named like case labels or like the switch value: they never take part in case selection
         pre = rnd.choice(["", "", "const A = 1\nconst B = ZZ\n", "const ZZ = A\nconst C9 = B\n", "const V = B\n"])
         src_w = pre + src_w
-        for sw in ["A", "B", "ZZ"] + ([""] if i % 3 == 0 else []):
+        for sw in ["A", "B", "ZZ"] + ([""] if i % 3 == 0 else []) + (["de"] if i % 3 == 1 else []):
             sel = [f(sw) for f in tops_s]
             if pre and not any(x is None for x in sel): sel = [pre.rstrip("\n")] + sel
             cfg = repo_cfg(switches={"V": sw}, optimize=True)
@@ -1077,7 +1085,7 @@ def gen_C13(rnd, n, tier):
         out.append(Case(compile_line(cfg, prog2), prog2, cfg, {"role": "expanded"}, group=it))
         # non-sites
         k = names[0]
-        prog3 = "\n".join(deflines + ["script %s { %s  %sx: goto(%s) }" % (k, k, k, k), "movement Mv { %s * 2 }" % k, 'text %s_t { "%s" }' % (k, k)])
+        prog3 = "\n".join(deflines + ["script %s { %s  %sx: goto(%s) }" % (k, k, k, k), "movement Mv { %s * 2 }" % k, 'text %s_t { "%s" }' % (k, k), 'text %s_u { "{%s}: hi {%s 15} {%s}$" }\nscript Sx { msgbox("{%s}") msgbox(format("{%s} x")) }' % (k, k, k, k, k, k)])
         out.append(Case(compile_line(cfg, prog3), prog3, cfg, {"role": "nonsite", "k": k}, group=(it, "n")))
         if it % 10 == 0:
             prog4 = "\n".join(deflines + ["const %s = 5" % k, "script S { a }"])
@@ -1102,7 +1110,7 @@ def oracle_C13_group(cases, results):
         c, r = roles["nonsite"]; k = c.meta["k"]
         if r["kind"] != "OK": return "non-site program rejected: %s" % r.get("msg")
         t = r["text"]
-        if not re.search(r"^%s::" % k, t, re.M) or ("\t%s\n" % k) not in t or ('"%s$"' % k) not in t or ("%sx:" % k) not in t:
+        if not re.search(r"^%s::" % k, t, re.M) or ("\t%s\n" % k) not in t or ('"%s$"' % k) not in t or ("%sx:" % k) not in t or ('"{%s}: hi {%s 15} {%s}$"' % (k, k, k)) not in t or ('"{%s}$"' % k) not in t or ('"{%s} x$"' % k) not in t:
             return "a constant rewrote a script name, command name, label, movement step or text"
     if "redef" in roles:
         if roles["redef"][1]["kind"] != "PERR": return "redefinition of a constant was accepted"
